@@ -142,6 +142,7 @@ def report(prop, tier, seed, results, bounded, kf, known_by_id, wall, a):
     if code == 0:
         if engine or (not n_proof):
             code = 3
+            for u, e in errors: lines.append(f"UNDECIDED unit {u}: {e[:900]}")
             for e in engine: lines.append(f"CHECKER-DEFECT {e['name']}: {e.get('status')} {e.get('reason', '')[:300]}")
             if not n_proof: lines.append("CHECKER-DEFECT zero obligations generated")
         elif errors or undecided or missing:
